@@ -45,7 +45,7 @@ BuildDeep(d) ==
 Build(d) ==
   IF d[1] = "deep" THEN BuildDeep(d) ELSE
   LET loss == d[1] act == d[2] batch == d[3] feat == d[4] out == d[5]
-      par == CASE act = "leakyrelu" -> [k |-> Q(1, 10), nilconf |-> FALSE]
+      par == CASE act = "leakyrelu" -> [k |-> IF (batch + feat) % 2 = 0 THEN Q(1, 10) ELSE QI(3), nilconf |-> FALSE]     \* slopes below and above 1
                [] act = "softmax" -> [dim |-> 1, nilconf |-> FALSE]
                [] OTHER -> NoPar
       tdims == IF loss = "ce" THEN <<batch, out>> ELSE <<batch>>
